@@ -17,7 +17,7 @@ import warnings
 
 from ..engine import REPO
 
-FORMATS = ["xyz"]
+FORMATS = ["xyz", "sdf"]
 EXT = {"xyz": (".xyz",), "sdf": (".sdf",), "mol2": (".mol2",), "pdb": (".pdb",), "cube": (".cube", ".cub"),
        "gromacs": (".gro",)}
 CLASSES = ["ValueError", "IndexError", "KeyError", "StopIteration", "TypeError", "LoadError", "OverflowError",
@@ -201,6 +201,15 @@ def _generated(fmt: str) -> list[tuple[str, str]]:
             ("gen-zero", "0\nno atoms\n"),
             ("gen-sci", " 1 \ncomment\nCl 1e0 -2.5E-1 +.5\ntrailing\n"),
         ],
+        "sdf": [
+            ("gen-water", "water\n  iodata\n\n  3  2  0     0  0  0  0  0  0999 V2000\n"
+                          "    0.0000    0.0000    0.1000 O   0  0  0  0  0  0  0  0  0  0  0  0\n"
+                          "    0.7000    0.0000   -0.4000 H   0  0  0  0  0  0  0  0  0  0  0  0\n"
+                          "   -0.7000    0.0000   -0.4000 H   0  0  0  0  0  0  0  0  0  0  0  0\n"
+                          "  1  2  1  0  0  0  0\n  1  3  1  0  0  0  0\nM  END\n$$$$\n"),
+            ("gen-nobond", "x\n\n\n  1  0 v2000\n    1.0       2.0       3.0    cl\nM  END\n> <k>\nv\n\n$$$$\nnext\n"),
+            ("gen-empty", "\n\n\n  0  0  0  0  0  0  0  0  0  0999 V2000\nM  END\n$$$$\n"),
+        ],
     }
     return g.get(fmt, [])
 
@@ -274,13 +283,22 @@ def mutate(lines: list[str], kind: str, rng) -> list[str]:
             out[i] = rng.choice(["\n", "   \n", "\t\n", " \n"])
         else:
             out.insert(i, "\n")
+    elif kind == "token":
+        toks = list(re.finditer(r"\S+", out[i]))
+        if toks:
+            m = rng.choice(toks)
+            rep = rng.choice(["Xx", "1e999", "-", "é", "0", "H", "He", "99999999999999999999", "_", "1_0", "٣",
+                              "²", "1.5", "-2", "@<TRIPOS>ATOM", "END", "nan", ""])
+            if rng.random() < 0.5:
+                rep = rep[: m.end() - m.start()].ljust(m.end() - m.start())
+            out[i] = out[i][: m.start()] + rep + out[i][m.end():]
     elif kind == "move-end":
         out.append(out.pop(i))
     return out
 
 
 KINDS = ["delete", "dup", "swap", "subst", "subst", "insert", "overflow", "overflow", "inflate", "count", "count",
-         "del-block", "blank", "trunc-byte", "move-end"]
+         "del-block", "blank", "trunc-byte", "move-end", "token", "token"]
 
 
 def _enc(text: str) -> str:
